@@ -104,6 +104,13 @@ CLAIMED = {
             'bucket sizes {2,4} quick / {1,2,3,4,10} thorough; skeleton depth <= 3 (4) plus targeted families up to 12 operations; the shim is '
             'validated against real numpy on random concrete histories each run and counterexamples are replayed on real numpy',
             TECH),
+    'C12': ('DESIGN.md C12',
+            'Bounded solver-based product check: the same symbolic single-symbol session runs through the normal and then the fast '
+            'simulator on one path with shared symbols; on paths inside the precondition (at most one resting fill per trading-candle span, '
+            'no liquidation) z3 proves executed orders (side, type, qty, price, fill minute), closed trades and final balances equal.',
+            'floats as reals; trading timeframes 3m and 5m (15m data route), 2-3 symbolic minutes per session with range < 20 and exits >= 30 '
+            'from the entry; templates T1, T3; spot and futures',
+            TECH),
 }
 
 NOT_YET = {}
